@@ -111,6 +111,10 @@ def run_actions(exe, actions):
             sys.exit(int(action[1]))
         elif op == "nop":
             pass
+        elif op == "ifexists":
+            chosen = action[2] if os.path.exists(action[1]) else (action[3] if len(action) > 3 else None)
+            if chosen is not None:
+                run_actions(exe, [chosen])
         else:
             raise ValueError(f"unknown action {op}")
 
